@@ -69,8 +69,13 @@ def _ident(x):
   return x
 
 
+def _select(x):
+  """Builds a FRESH dict holding only the features the model needs (anything else it was handed is not forwarded)."""
+  return {'i': x['i'], 'f': x['f'] * 2}
+
+
 CHAINS = {'none': [], 'add': [_add], 'cast': [_cast], 'add_cast': [_add, _cast_z], 'cast_add': [_cast, _add],
-          'inplace': [_inplace], 'ident_inplace': [_ident, _inplace]}
+          'inplace': [_inplace], 'ident_inplace': [_ident, _inplace], 'select': [_select]}
 
 
 def ref_processed(raw, chain):
@@ -88,6 +93,8 @@ def ref_processed(raw, chain):
   elif chain in ('inplace', 'ident_inplace'):
     out['z'] = raw['i'] * 2 + 1
     out['i'] = raw['i'].astype(np.int64) + 1
+  elif chain == 'select':
+    out = {'i': raw['i'].copy(), 'f': raw['f'] * 2}
   return out
 
 
